@@ -6,9 +6,17 @@ open Pilota Pilota.Thrift
 /-- values of declared type `e` never own heap memory or input-buffer references -/
 def OwnsNothing (d : Doc) (e : STy) : Prop := ∀ f v, owned d f e v = 0
 
+/-- a value of this type is never an empty `binary` read at the very end of the buffer, nor ends with one: scalars, strings,
+uuids, and named structs / unions / enums (a struct ends with its stop byte).  Containers and `binary` itself are excluded
+(they own something anyway when non-empty); typedefs are excluded for simplicity. -/
+def TailFree (d : Doc) : STy → Prop
+  | .binary | .list _ | .set _ | .map _ _ => False
+  | .ref n => ∀ t, d.find n ≠ some (.typedef t)
+  | _ => True
+
 /-- every list inside the type has elements that own nothing -/
 def ListSafe (d : Doc) : STy → Prop
-  | .list e => OwnsNothing d e ∧ ListSafe d e
+  | .list e => OwnsNothing d e ∧ TailFree d e ∧ ListSafe d e
   | .set e => ListSafe d e
   | .map k v => ListSafe d k ∧ ListSafe d v
   | _ => True
@@ -26,11 +34,53 @@ theorem sum_zero_of_all_zero (l : List Nat) (h : ∀ x ∈ l, x = 0) : l.sum = 0
 
 variable {σ : Type} (R : Rd σ) (d : Doc)
 
+theorem ofOut_ok_tail {α} (o : Out α) (a : α) (t : Bool) (h : OutL.ofOut o = .ok a t) : t = false := by
+  cases o <;> simp [OutL.ofOut] at h; exact h.2
+
+/-- a tail-free type never reports the "empty binary at the end of the buffer" flag -/
+theorem tailFree_ok (sync : Bool) (f : Nat) (e : STy) (he : TailFree d e) (s : σ) (x : TVal × σ) (t : Bool)
+    (h : decTyL R d sync f e s = .ok x t) : t = false := by
+  cases f with
+  | zero => simp [decTyL] at h
+  | succ f =>
+    cases e with
+    | binary => exact absurd he (by simp [TailFree])
+    | list e => exact absurd he (by simp [TailFree])
+    | set e => exact absurd he (by simp [TailFree])
+    | map k v => exact absurd he (by simp [TailFree])
+    | ref n =>
+      simp only [decTyL] at h
+      split at h
+      · split at h
+        · split at h
+          · split at h
+            · cases h; rfl
+            · cases h
+          · cases h
+        · cases h
+        · cases h
+        · cases h
+      · split at h
+        · split at h
+          · split at h
+            · cases h; rfl
+            · split at h
+              · cases h; rfl
+              · cases h
+          · cases h
+        · cases h
+        · cases h
+        · cases h
+      · exact ofOut_ok_tail _ _ _ h
+      · rename_i t' hfind; exact absurd hfind (he t')
+      · cases h
+    | _ => simp only [decTyL] at h; exact ofOut_ok_tail _ _ _ h
+
 theorem no_leak_sync_all (hd : DocSafe d) : ∀ f : Nat,
     (∀ ty s l, ListSafe d ty → decTyL R d true f ty s = .err l → l = 0) ∧
-    (∀ e n acc s l, OwnsNothing d e → ListSafe d e → decNL R d true f e n acc s = .err l → l = 0) ∧
-    (∀ e n acc s l, ListSafe d e → decNS R d true f e n acc s = .err l → l = 0) ∧
-    (∀ k v n acc s l, ListSafe d k → ListSafe d v → decPairsL R d true f k v n acc s = .err l → l = 0) ∧
+    (∀ e n acc s l, OwnsNothing d e → TailFree d e → ListSafe d e → decNL R d true f e n acc false s = .err l → l = 0) ∧
+    (∀ e n acc t s l, ListSafe d e → decNS R d true f e n acc t s = .err l → l = 0) ∧
+    (∀ k v n acc t s l, ListSafe d k → ListSafe d v → decPairsL R d true f k v n acc t s = .err l → l = 0) ∧
     (∀ fs slots s l, (∀ fl ∈ fs, ListSafe d fl.ty) → decFieldsL R d true f fs slots s = .err l → l = 0) ∧
     (∀ vs ret s l, (∀ v ∈ vs, ListSafe d v.2) → decUnionL R d true f vs ret s = .err l → l = 0) := by
   intro f
@@ -48,7 +98,7 @@ theorem no_leak_sync_all (hd : DocSafe d) : ∀ f : Nat,
         split at h
         · split at h
           · cases h
-          · rename_i hx; cases h; exact ihN e _ _ _ _ hs.1 hs.2 hx
+          · rename_i hx; cases h; exact ihN e _ _ _ _ hs.1 hs.2.1 hs.2.2 hx
           · cases h
           · cases h
         · exact ofOut_err_zero _ _ h
@@ -57,7 +107,7 @@ theorem no_leak_sync_all (hd : DocSafe d) : ∀ f : Nat,
         split at h
         · split at h
           · cases h
-          · rename_i hx; cases h; exact ihS e _ _ _ _ hs hx
+          · rename_i hx; cases h; exact ihS e _ _ _ _ _ hs hx
           · cases h
           · cases h
         · exact ofOut_err_zero _ _ h
@@ -66,7 +116,7 @@ theorem no_leak_sync_all (hd : DocSafe d) : ∀ f : Nat,
         split at h
         · split at h
           · cases h
-          · rename_i hx; cases h; exact ihP k v _ _ _ _ hs.1 hs.2 hx
+          · rename_i hx; cases h; exact ihP k v _ _ _ _ _ hs.1 hs.2 hx
           · cases h
           · cases h
         · exact ofOut_err_zero _ _ h
@@ -98,14 +148,22 @@ theorem no_leak_sync_all (hd : DocSafe d) : ∀ f : Nat,
         · exact ofOut_err_zero _ _ h
         · rename_i t hfind; exact ihT _ _ _ (hdT n t hfind) h
         · cases h
+      | binary =>
+        simp only [decTyL] at h
+        split at h
+        · cases h
+        · exact ofOut_err_zero _ _ h
       | _ => simp only [decTyL] at h; exact ofOut_err_zero _ _ h
-    · intro e n acc s l ho hs h
+    · intro e n acc s l ho htf hs h
       cases n with
       | zero => simp only [decNL] at h; cases h
       | succ n =>
         simp only [decNL] at h
         split at h
-        · exact ihN _ _ _ _ _ ho hs h
+        · rename_i v s' t' hx
+          have ht : t' = false := tailFree_ok R d true f e htf _ _ _ hx
+          subst ht
+          exact ihN _ _ _ _ _ ho htf hs h
         · rename_i hx
           have h0 := ihT _ _ _ hs hx
           have hsum : (acc.map (owned d (d.length + 64) e)).sum = 0 :=
@@ -113,24 +171,24 @@ theorem no_leak_sync_all (hd : DocSafe d) : ∀ f : Nat,
           simp at h; omega
         · cases h
         · cases h
-    · intro e n acc s l hs h
+    · intro e n acc t s l hs h
       cases n with
       | zero => simp only [decNS] at h; cases h
       | succ n =>
         simp only [decNS] at h
         split at h
-        · exact ihS _ _ _ _ _ hs h
+        · exact ihS _ _ _ _ _ _ hs h
         · rename_i hx; cases h; exact ihT _ _ _ hs hx
         · cases h
         · cases h
-    · intro k v n acc s l hk hv h
+    · intro k v n acc t s l hk hv h
       cases n with
       | zero => simp only [decPairsL] at h; cases h
       | succ n =>
         simp only [decPairsL] at h
         split at h
         · split at h
-          · exact ihP _ _ _ _ _ _ hk hv h
+          · exact ihP _ _ _ _ _ _ _ hk hv h
           · rename_i hx; cases h; exact ihT _ _ _ hv hx
           · cases h
           · cases h
